@@ -19,4 +19,6 @@ def run(ctx) -> None:
     template.rule_G(ctx)
     template.rule_Y2iii(ctx, "G8")     # a stub method body must be able to run: names it uses are imported
     rule_G6(ctx, "G6")
+    ctx.rules_run.append("G9")
+    template.rule_G9(ctx)
     ctx.floor("G1", "cardinality obligations", len([o for o in ctx.obs if o.rule == "G1"]), 8)
